@@ -187,6 +187,28 @@ func GuardsAt(info *types.Info, body ast.Node, target ast.Node) []Guard {
 		return nil
 	}
 	var gs []Guard
+	// add splits positive conjunctions / negative disjunctions so that invalidating one conjunct
+	// (by an assignment to a variable it mentions) keeps the others
+	var add func(cond ast.Expr, pos bool, at token.Pos)
+	add = func(cond ast.Expr, pos bool, at token.Pos) {
+		switch x := cond.(type) {
+		case *ast.ParenExpr:
+			add(x.X, pos, at)
+			return
+		case *ast.UnaryExpr:
+			if x.Op == token.NOT {
+				add(x.X, !pos, at)
+				return
+			}
+		case *ast.BinaryExpr:
+			if (x.Op == token.LAND && pos) || (x.Op == token.LOR && !pos) {
+				add(x.X, pos, at)
+				add(x.Y, pos, at)
+				return
+			}
+		}
+		gs = append(gs, Guard{Cond: cond, Pos: pos, At: at})
+	}
 	dropAssigned := func(nodes []ast.Node) {
 		if len(gs) == 0 {
 			return
@@ -217,20 +239,19 @@ func GuardsAt(info *types.Info, body ast.Node, target ast.Node) []Guard {
 				bodyT := Terminates(info, ifs.Body.List)
 				if ifs.Else == nil {
 					if bodyT {
-						g := Guard{Cond: ifs.Cond, Pos: false, At: ifs.Pos()}
 						// the init statement's variables are scoped to the if: skip if cond mentions them
 						if !condUsesInitVars(info, ifs) {
-							gs = append(gs, g)
+							add(ifs.Cond, false, ifs.Pos())
 						}
 					}
 				} else {
 					elseT := stmtTerminates(info, ifs.Else)
 					if bodyT && !elseT {
 						if _, isIf := ifs.Else.(*ast.IfStmt); !isIf && !condUsesInitVars(info, ifs) {
-							gs = append(gs, Guard{Cond: ifs.Cond, Pos: false, At: ifs.Pos()})
+							add(ifs.Cond, false, ifs.Pos())
 						}
 					} else if elseT && !bodyT && !condUsesInitVars(info, ifs) {
-						gs = append(gs, Guard{Cond: ifs.Cond, Pos: true, At: ifs.Pos()})
+						add(ifs.Cond, true, ifs.Pos())
 					}
 				}
 			}
@@ -246,12 +267,12 @@ func GuardsAt(info *types.Info, body ast.Node, target ast.Node) []Guard {
 				if x.Init != nil {
 					dropAssigned([]ast.Node{x.Init})
 				}
-				gs = append(gs, Guard{Cond: x.Cond, Pos: true, At: x.Pos()})
+				add(x.Cond, true, x.Pos())
 			} else if x.Else != nil && child == ast.Node(x.Else) {
 				if x.Init != nil {
 					dropAssigned([]ast.Node{x.Init})
 				}
-				gs = append(gs, Guard{Cond: x.Cond, Pos: false, At: x.Pos()})
+				add(x.Cond, false, x.Pos())
 			} else if child == ast.Node(x.Cond) {
 				if x.Init != nil {
 					dropAssigned([]ast.Node{x.Init})
@@ -264,7 +285,7 @@ func GuardsAt(info *types.Info, body ast.Node, target ast.Node) []Guard {
 					dropAssigned([]ast.Node{x.Post})
 				}
 				if x.Cond != nil {
-					gs = append(gs, Guard{Cond: x.Cond, Pos: true, At: x.Pos()})
+					add(x.Cond, true, x.Pos())
 				}
 			}
 		case *ast.RangeStmt:
@@ -304,17 +325,17 @@ func GuardsAt(info *types.Info, body ast.Node, target ast.Node) []Guard {
 								break
 							}
 							for _, e := range c2.List {
-								gs = append(gs, Guard{Cond: e, Pos: false, At: c2.Pos()})
+								add(e, false, c2.Pos())
 							}
 						}
 						if len(cc.List) == 1 {
-							gs = append(gs, Guard{Cond: cc.List[0], Pos: true, At: cc.Pos()})
+							add(cc.List[0], true, cc.Pos())
 						} else if cc.List == nil {
 							// default: all cases false
 							for _, s := range x.Body.List {
 								c2 := s.(*ast.CaseClause)
 								for _, e := range c2.List {
-									gs = append(gs, Guard{Cond: e, Pos: false, At: c2.Pos()})
+									add(e, false, c2.Pos())
 								}
 							}
 						}
